@@ -15,7 +15,8 @@ def run_seed(sd):
         if r.returncode:
             return sd.name, {"error": "patch does not apply: " + r.stdout[:200]}
         out = {}
-        for pid in PIDS:
+        own = json.load(open(sd / "meta.json"))["property"]
+        for pid in ([own] if OWN_ONLY else PIDS):
             r = subprocess.run([sys.executable, str(HERE / "check.py"), pid, "--root", tmp, "--evidence", tmp + "/ev"], capture_output=True, text=True)
             if r.returncode:
                 rules = sorted({l.strip().split(" construct=")[0].replace("rule=", "") for l in r.stdout.splitlines() if l.strip().startswith("rule=")})
@@ -30,6 +31,10 @@ args = sys.argv[1:]
 # --merge-from DIR: the seeds not named on the command line keep the result recorded in DIR/seeded/<id>/meta.json (a run of this tool from a
 # snapshot of the same commit, see `vp run`), the named ones are run now, and MATRIX.md is written for all of them
 merge_from = None
+# --own-only: run only the check of the property each change was aimed at; what the other checks said is kept from the change's meta.json
+OWN_ONLY = args[:1] == ["--own-only"]
+if OWN_ONLY:
+    args = args[1:]
 if args[:1] == ["--merge-from"]:
     merge_from, args = pathlib.Path(args[1]), args[2:]
 only = args
@@ -38,6 +43,13 @@ if only:
     seeds = [s for s in seeds if s.name in only]
 with ThreadPoolExecutor(int(os.environ.get("MX_JOBS", "4"))) as ex:
     res = dict(ex.map(run_seed, seeds))
+if OWN_ONLY:
+    for s_ in seeds:
+        prev = json.load(open(s_ / "meta.json")).get("detection", {})
+        own_ = json.load(open(s_ / "meta.json"))["property"]
+        merged = {k: v for k, v in prev.items() if k != own_}
+        merged.update(res[s_.name])
+        res[s_.name] = merged
 if merge_from is not None:
     for s_ in all_seeds:
         if s_.name not in res:
